@@ -172,7 +172,7 @@ def mips1_r(obj, rs):
 @ispec("32<[ 0100 .z(2) 00110 rt(5) rd(5) 00000000000 ]", mnemonic="CTC")
 @ispec("32<[ 0100 .z(2) 00100 rt(5) rd(5) 00000000000 ]", mnemonic="MTC")
 def mips1_copz_rr(obj, rt, rd):
-    obj.operands = [env.R[rt], rd]
+    obj.operands = [env.R[rt], env.cst(rd, 5)]
     obj.type = type_other
 
 @ispec("32<[ 1100 .z(2) base(5) rt(5) offset(16) ]", mnemonic="LWC")
